@@ -62,9 +62,10 @@ def check_roundtrip(case):
     reifiable = {r[0] for r in table['reifications']}
     m = build_model(spec)
     noise_calls(m, node)
-    g = layout.interpret(Tree(node), m)
+    # the graph carries metadata: "the identical encoded text" includes its comment lines
+    g = layout.interpret(Tree(node, metadata={'id': 'c11', 'snt': 'x y'}), m)
     if case.get('strip'):
-        g = Graph(g.triples, top=g.top)
+        g = Graph(g.triples, top=g.top, metadata=g.metadata)
     # precondition
     for s, r, t in g.triples:
         if r == ':instance' and t in deconcepts:
@@ -92,6 +93,8 @@ def check_roundtrip(case):
     for v in new - old:
         if sum(1 for t in r.triples if t[0] == v and t[1] == ':instance') != 1:
             f.append(('reify-fresh-node-instance', '%s: %r' % (lab, v)))
+    if dict(r.metadata) != dict(g.metadata):
+        f.append(('reify-metadata', '%s: %r' % (lab, dict(r.metadata))))
     rsnap = graphm.snapshot(r)
     rtext = penman.encode(r, model=m, indent=None)
     d = transform.dereify_edges(r, m)
@@ -204,6 +207,8 @@ def _rt_cases(draw, large=False):
         if R.inverted(w) and R.is_canonical_inversion(w):
             inv[r] = w
     j = draw(trees.wf_trees(spec, max_nodes=30 if large else 6, role_pool=(fwd, inv), emptyconcept=False, wide=8 if large else 3))
+    if draw(st.integers(0, 5)) == 0:
+        j = trees.add_decoy(draw, j, table)         # looks reified but has a third relation: not collapsible
     return {'k': 'rt', 'tree': j, 'model': spec, 'strip': draw(st.integers(0, 3)) == 0,
             'opts': [pick(draw, OPTS)]}
 
@@ -221,7 +226,11 @@ def _protected_cases(draw):
         top = x if why == 'top' else None       # implicit: the first triple's source is the top
         ts = [ts[2], ts[3], ts[4], ts[0], ts[1]]
     elif why == 'third-relation':
-        ts.insert(draw(st.integers(3, len(ts))), [x, draw(st.sampled_from([':polarity', ':ARG3', ':mod', ':time'])), draw(st.sampled_from(['-', 'b', 'a', '"s"']))])
+        # the third relation may repeat one of the two argument roles (:ARG2 country :ARG2 continent)
+        third = [x, draw(st.sampled_from([':polarity', ':ARG3', ':mod', ':time', sr, tr, sr, tr])), draw(st.sampled_from(['-', 'b', 'a', '"s"', 'continent']))]
+        if third in ts:
+            third = [x, third[1], 'continent']
+        ts.insert(draw(st.integers(3, len(ts))), third)
     else:
         # the reference may come before or after the node's own triples (a forward re-entrancy in the text)
         ts.insert(draw(st.integers(1, len(ts))), [draw(st.sampled_from(['a', 'b'])), draw(st.sampled_from([':ARG0', ':mod', ':topic'])), x])
